@@ -140,7 +140,10 @@ ValidCfg(cfg, dis) == /\ LeafLocalOK(cfg, dis)
                       /\ ("leafref" \in dis \/ LeafrefOK(cfg))
                       /\ ("must" \in dis \/ MustOK(cfg))
 \* the configuration that results from a transaction: the merged intents over the untouched device content
-ResultOf(I2, d, E) == Overlay(Without(d, LeavesOf(I2) \cup E), Eff(I2))
+\* (orphan-deleted leaves whose last definer left stay on the device as unmanaged content)
+ResultOf(I2, d, E, orph) ==
+    LET kept == {l \in DOMAIN d : l \in orph /\ l \notin LeavesOf(I2)}
+    IN Overlay(Without(d, (LeavesOf(I2) \cup E) \ kept), Eff(I2))
 
 \* ---- cache Modify model (sdcio/cache as used): intended entries are keyed by (owner, priority, path)
 \* m = [o, p, del : set of leaves, upd : set of <<l, v>>]; deletes first, then writes
